@@ -125,6 +125,49 @@ fn cloned_iter_chunk() {
     wit(&m);
 }
 
+fn take_copy(v: &usize) -> usize {
+    *v
+}
+
+// @verif family=SEQ quick=C13 thorough=C03,C05 timeout=900
+// @bounds kind=Copied<ConIterOfIter<&usize,RefProbe>> (copied() over the wrapper of an iterator of references) len<=2; prefix<=3 next() (so the end may already have been reported); buffered_iter(2) 1-2 pulls partly consumed; single/len query; end in {drop, into_seq_iter all/partly}
+#[kani::proof]
+#[kani::unwind(7)]
+fn copied_iter_buf() {
+    let len = any_len(2);
+    let data: [usize; 2] = [0, 1];
+    let it = RefProbe { src: &data[..len], pos: 0 }.into_con_iter().copied();
+    let m = run(it, KindInfo { nbuf: 2, nmax: 2, ..info(len, 0b111) }, 3, S_BUF, |v: usize| v);
+    kani::cover!(m.w_past_end, "W: a buffered pull after the end was reported");
+    kani::cover!(m.w_second_buffered && m.pos == m.len && m.len > 0, "W: second buffered pull, exhausted");
+    let _ = take_copy;
+}
+
+// @verif family=SEQ quick=C13 thorough=C03,C05 timeout=900
+// @bounds kind=Cloned<ConIterOfIter<&Cl,RefProbe>> len<=2; prefix<=3 next(); buffered_iter(2) 1-2 pulls partly consumed; single/len query; end in {drop, into_seq_iter all/partly}; clone ledger
+#[kani::proof]
+#[kani::unwind(7)]
+fn cloned_iter_buf() {
+    let len = any_len(2);
+    let data = cl_src();
+    let it = RefProbe { src: &data[..len], pos: 0 }.into_con_iter().cloned();
+    let m = run(it, KindInfo { nbuf: 2, nmax: 2, ..info(len, 0b111) }, 3, S_BUF, take_clone);
+    clone_ledger(&data);
+    kani::cover!(m.w_past_end, "W: a buffered pull after the end was reported");
+}
+
+// @verif family=SEQ quick=C13 thorough=C06 timeout=900
+// @bounds kind=Copied<ConIterOfIter<&usize,RefProbe>> len<=2; prefix<=2 next(); skip_to_end; any pull (single, chunk, buffered(2) x2); single/len query; end in {drop, into_seq_iter all/partly}
+#[kani::proof]
+#[kani::unwind(7)]
+fn copied_iter_skip() {
+    let len = any_len(2);
+    let data: [usize; 2] = [0, 1];
+    let it = RefProbe { src: &data[..len], pos: 0 }.into_con_iter().copied();
+    let m = run(it, KindInfo { nbuf: 2, ..info(len, 0b111) }, 2, S_SKIP, |v: usize| v);
+    wit_skip(&m);
+}
+
 // ------------------------------------------------------------------------------------------------
 // C15: the same histories under CBMC's --memory-leak-check: every malloc'ed object is freed at exit
 fn take(t: Tracked) -> usize {
@@ -401,4 +444,34 @@ fn indep_range() {
     }
     kani::cover!(ma.pos > mc.pos && mc.pos > mb.pos, "W: three iterators at three different positions");
     assert!(r.start == start && r.end == start + len, "C19: the range must be unchanged");
+}
+
+// ------------------------------------------------------------------------------------------------
+// C14 clause "no sequence of safe public calls produces two owners of one element": the low-level
+// AtomicIter API (public module `iter::atomic_iter`) is safe and lets a caller move the same element
+// out twice. Known finding KF-C14-lowlevel; the harness isolates the two smallest call sequences.
+// @verif family=SEQ quick=C14 timeout=300
+// @bounds kind=Vec<Tracked> len=2; safe calls only: either AtomicIter::get(0) twice, or next() followed by counter().store(0) and next()  (isolates known finding KF-C14-lowlevel)
+#[kani::proof]
+#[kani::unwind(5)]
+fn kf_lowlevel_two_owners() {
+    use orx_concurrent_iter::iter::atomic_iter::AtomicIter;
+    let it = mkvec(2, 3).into_con_iter();
+    let which: bool = kani::any();
+    let (a, b) = if which {
+        (AtomicIter::get(&it, 0), AtomicIter::get(&it, 0))
+    } else {
+        let a = it.next();
+        it.counter().store(0);
+        (a, it.next())
+    };
+    let two = match (&a, &b) {
+        (Some(x), Some(y)) => x.0 == y.0,
+        _ => false,
+    };
+    core::mem::forget(a);
+    core::mem::forget(b);
+    core::mem::forget(it);
+    kani::cover!(which, "W: get twice");
+    assert!(!two, "C14: KF-C14-lowlevel: safe public calls produced two owners of one element");
 }
